@@ -1117,7 +1117,7 @@ impl<'a, M: Matcher, W: WriteColor> StandardImpl<'a, M, W> {
                 self.write_exceeded_line(bytes, line, matches, &mut midx)?;
             } else {
                 self.write_colored_matches(bytes, line, matches, &mut midx)?;
-                self.write_line_term()?;
+                self.write_own_line_term(bytes, line)?;
             }
         }
         Ok(())
@@ -1195,6 +1195,7 @@ impl<'a, M: Matcher, W: WriteColor> StandardImpl<'a, M, W> {
                     Some(m.start().saturating_sub(line.start()) as u64 + 1),
                 )?;
                 count += 1;
+                let full_line = line;
                 self.trim_line_terminator(bytes, &mut line);
                 self.trim_ascii_prefix(bytes, &mut line);
                 if self.exceeds_max_columns(&bytes[line]) {
@@ -1216,7 +1217,7 @@ impl<'a, M: Matcher, W: WriteColor> StandardImpl<'a, M, W> {
                         line = line.with_start(upto);
                     }
                 }
-                self.write_line_term()?;
+                self.write_own_line_term(bytes, full_line)?;
                 // It turns out that vimgrep really only wants one line per
                 // match, even when a match spans multiple lines. So when
                 // that option is enabled, we just quit after printing the
@@ -1295,7 +1296,7 @@ impl<'a, M: Matcher, W: WriteColor> StandardImpl<'a, M, W> {
             self.write_exceeded_line(bytes, line, matches, &mut 0)
         } else {
             self.write_colored_matches(bytes, line, matches, &mut 0)?;
-            self.write_line_term()?;
+            self.write_own_line_term(bytes, line)?;
             Ok(())
         }
     }
@@ -1497,6 +1498,23 @@ impl<'a, M: Matcher, W: WriteColor> StandardImpl<'a, M, W> {
             self.write_line_term()?;
         }
         Ok(())
+    }
+
+    /// Write the line terminator that the given line of `bytes` ends with,
+    /// exactly as it is. If the line has no terminator, then the configured
+    /// one is written.
+    fn write_own_line_term(
+        &self,
+        bytes: &[u8],
+        line: Match,
+    ) -> io::Result<()> {
+        let mut trimmed = line;
+        self.trim_line_terminator(bytes, &mut trimmed);
+        if trimmed.end() < line.end() {
+            self.write(&bytes[trimmed.end()..line.end()])
+        } else {
+            self.write_line_term()
+        }
     }
 
     fn write_line_term(&self) -> io::Result<()> {
